@@ -349,3 +349,30 @@ TEXT['C04']['text'] += (' S atomic-nonces: the nonce increment of a creation bel
 TEXT['C12']['text'] += (' S halt-no-data: a journal program that halts exceptionally hands no return data back.')
 TEXT['C15']['text'] += (' In the loop model (M9) TLOAD / TSTORE read and write a transient store that is part of the world, with the static-context test '
                         'before the pops; the interp layer runs stores and loads of equal and different keys on every fork (undefined bytes before Cancun).')
+TEXT['C18']['text'] += (' Access-list tracer (M10, Props/C18Acl.lean): NewAccessListTracer and CaptureState are modelled; for every exclusion set, '
+                        'prior list and run every storage key of the prior list is in the result (acl_prior_slots_final), nothing is ever removed '
+                        '(acl_run_mono), an excluded account is listed only with one of its slots (acl_excluded_only_by_slot), accounts are listed once '
+                        '(acl_nodup). The real tracer is built from random prior lists (sender, recipient, precompiles, with and without keys), a recorder '
+                        'notes what each CaptureState is shown and the model replays it (AL lines); the same runs compare it, the JSON logger (every '
+                        'configuration switch), muxTracer and noopTracer with go-ethereum v1.12.0\'s. Call spines 4-10 levels deep with sibling calls at '
+                        'every level are run under the call and flat-call tracers (S tracer-same-spine).')
+TEXT['C01']['text'] += (' Standard precompiles: MODEXP is modelled (M11, Props/Modexp.lean: run_spec - the output is base^exp mod m in exactly modLen '
+                        'bytes, 0 for a zero modulus; powMod_eq) and compared with the table entries of Byzantium/Istanbul/Berlin (MX lines); the results of all '
+                        'precompiles 1-9 are compared with go-ethereum\'s on structured inputs whenever the price is payable (S stdrun).')
+TEXT['C02']['text'] += (' MODEXP\'s price is modelled in big-integer arithmetic with the 64-bit cut and the EIP-2565 minimum (M11: requiredGas_total, '
+                        'cap2565_ge, cap64_ge, priceOf_min) and compared with the code on inputs that include header-only length words whose price is a '
+                        'power of two or just above a multiple of 2^64. Differential cases start 15 % of the time with a self-destruct series (refund '
+                        'rules of Istanbul/Berlin/London).')
+TEXT['C20']['text'] += (' MODEXP (M11): the 64-bit cut of the big-integer price charges at least min(price, 2^64-1) (cap2565_ge, cap64_ge), so a price is '
+                        'never sold for its low bits; MX lines compare the modelled price with the code.')
+TEXT['C17']['text'] += (' Artela precompiles under concurrency: 24 instances (own state database, own sender, own forwarder addresses) call 0x64-0x66 '
+                        'through CALL/CALLCODE/DELEGATECALL/STATICCALL chains with 4999, 5000 or ample gas at the same time, three rounds; every '
+                        'instance is compared with the precompile model (PB lines: result, host call, attribution) and with its sequential run '
+                        '(S conc-artela-same). The host mock\'s answers and log travel in the call\'s context.Context.')
+TEXT['C15']['text'] += (' S stackbounds: TLOAD / TSTORE / MCOPY at stack heights 0-4 and 1021-1024 must underflow, run or overflow as their arities '
+                        '(1->1, 2->0, 3->0) say - the loop model takes its bounds from the regenerated rows and cannot notice a wrong row.')
+TEXT['C11']['text'] += (' S path-resolves: a name/index path resolves only if a registration with exactly that path was accepted (computed from the '
+                        'history); the alphabet has paths whose byte concatenations coincide ("a"+"b" / "ab", ""+{1} / {1}, an empty index key).')
+TEXT['C10']['text'] += (' S solstring-sequence (journal layer): after several reference journals in one frame every record still holds what was '
+                        'journaled for it (a later journal must not alter an earlier record).')
+TEXT['C09']['text'] += (' VVJNAL operands of the form 2^64*m + small (a valid low half under an invalid word) are generated for offset and width.')
